@@ -538,7 +538,58 @@ def _paths(ops, prefix=()):
 
 
 
+def lock_reused(ctx, n):
+    """directed family (direct API): ONE Lock object used by several simulations one after the other (and by an outer and a
+    nested one): in each of them it excludes, serves in request order and is free again at the end"""
+    import usim
+    from usim import time, Lock
+    rng = ctx.rng
+    for _ in range(n):
+        lock = Lock()
+        k, runs, nested = rng.choice([2, 3, 4]), rng.choice([2, 3]), rng.random() < 0.3
+        hold = rng.choice([1, 2])
+        case = {'lock_reused': dict(contenders=k, runs=runs, nested=nested, hold=hold)}
+        log, inside = [], [0]
+        bad = []
+
+        async def user(tag, i):
+            await (time + i * 0)      # all ask in spawn order at the same time
+            async with lock:
+                inside[0] += 1
+                if inside[0] != 1:
+                    bad.append('%r: %d activities inside the lock at %r' % (tag, inside[0], time.now))
+                log.append((tag, i, time.now))
+                await (time + hold)
+                inside[0] -= 1
+
+        async def sim(tag):
+            async with usim.Scope() as scope:
+                for i in range(k):
+                    scope.do(user(tag, i))
+            if not lock.available:
+                bad.append('%r: the lock is not free after everybody left' % (tag,))
+
+        async def outer(tag):
+            usim.run(sim((tag, 'inner')))
+            await sim((tag, 'outer'))
+        try:
+            for r in range(runs):
+                usim.run(outer(r) if nested else sim(r))
+        except BaseException as e:   # noqa
+            ctx.fail(case, 'raised %r; log %r' % (e, log), family='lock-reused')
+            continue
+        ctx.count(('lock-reused', json.dumps(case)), nontrivial=True)
+        ctx.bump('family:lock-reused')
+        tags = [(r, w) for r in range(runs) for w in ('inner', 'outer')] if nested else list(range(runs))
+        want = [(t, i, i * hold) for t in tags for i in range(k)]
+        if log != want:
+            bad.append('entered in the order / at the times %r, expected %r' % (log, want))
+        if bad:
+            ctx.fail(case, '; '.join(bad[:3]), family='lock-reused')
+
+
 def run(ctx):
+    lock_reused(ctx, ctx.n(30, 400))
     _run_vertical(ctx)
     # second, independent tie: lock programs on the whole-program machine (whole-trace correspondence) + bracket/grant monitor
     from harness import machine_prop
